@@ -1,4 +1,4 @@
-From Coq Require Import List Arith Lia Bool Permutation.
+From Coq Require Import List Arith Lia Bool Permutation ListDec.
 Import ListNotations.
 
 (* analyze.go:buildProviderMap over nested provider sets (parse.go:processNewSet recursion).
@@ -462,6 +462,48 @@ Proof.
   apply look_NoDup_perm.
   - apply Permutation_app_head. exact HP.
   - rewrite keys_app. unfold keys at 2. rewrite <- K1. exact N1.
+Qed.
+
+(* completeness of conflict reporting: a phase whose keys (old and new) are not pairwise distinct reports a
+   multiple-bindings error *)
+Lemma insert_all_reports es : forall pm pm' errs errs',
+  NoDup (keys pm) -> ~ NoDup (keys pm ++ map fst es) ->
+  insert_all es pm errs = (pm', errs') -> exists k, In (SMulti k) errs'.
+Proof.
+  induction es as [|[k c] r IH]; intros pm pm' errs errs' Hnd Hdup H; cbn [insert_all] in H.
+  - exfalso. apply Hdup. cbn. rewrite app_nil_r. exact Hnd.
+  - destruct (look pm k) eqn:E.
+    + apply insert_all_errs_mono in H. destruct H as [l ->]. exists k.
+      apply in_or_app. left. apply in_or_app. right. left. reflexivity.
+    + apply look_None_keys in E. eapply (IH (pm ++ [(k, c)])); eauto.
+      * rewrite keys_app. cbn. apply NoDup_snoc; auto.
+      * rewrite keys_app. cbn. rewrite <- app_assoc. exact Hdup.
+Qed.
+
+(* C05 "reported": if the injector parameters, everything the (individually accepted) nested sets provide and
+   the set's own providers / values / fields do not have pairwise distinct types, buildProviderMap fails and
+   its error list contains a multiple-bindings error *)
+Theorem build1_reports a ms d b :
+  ~ NoDup (map fst a ++ concat (map (fun im => keys (snd im)) ms) ++ map fst d) ->
+  exists es k, build1 a ms d b = inr es /\ In (SMulti k) es.
+Proof.
+  intros Hdup. unfold build1.
+  destruct (insert_all (a ++ flat_map imp_entries ms) [] []) as [pm1 e1] eqn:E1.
+  assert (K0 : map fst (a ++ flat_map imp_entries ms) = map fst a ++ concat (map (fun im => keys (snd im)) ms)).
+  { rewrite map_app, map_fst_flat_imp. reflexivity. }
+  destruct e1 as [|x1 r1].
+  - apply insert_all_ok in E1; [|constructor]. destruct E1 as [K1 N1]. cbn [keys map app] in K1.
+    destruct (insert_all d pm1 []) as [pm2 e2] eqn:E2.
+    assert (Hd2 : ~ NoDup (keys pm1 ++ map fst d)).
+    { rewrite K1, K0. rewrite <- app_assoc. exact Hdup. }
+    destruct (insert_all_reports _ _ _ _ _ N1 Hd2 E2) as [k Hk].
+    destruct e2 as [|x2 r2]; [destruct Hk|]. exists (x2 :: r2), k. auto.
+  - destruct (ListDec.NoDup_dec Nat.eq_dec (map fst (a ++ flat_map imp_entries ms))) as [Hn|Hn].
+    + (* phase 1 keys are distinct, so it cannot have reported anything *)
+      exfalso. destruct (insert_all_succeeds (a ++ flat_map imp_entries ms) []) as [pm' Hs]; [constructor|exact Hn|].
+      rewrite Hs in E1. discriminate.
+    + destruct (insert_all_reports _ [] _ _ _ ltac:(constructor) Hn E1) as [k Hk].
+      exists (x1 :: r1), k. auto.
 Qed.
 
 End Sets.
